@@ -1,6 +1,7 @@
 package peers
 
 import (
+	"time"
 	"verif/sim"
 )
 
@@ -15,6 +16,9 @@ type GarbageClient struct {
 	Got      []byte
 	SawClose bool
 	Kind     string
+	// Later: more bytes, sent LaterAfter after the payload on the same connection (if it is still open)
+	Later      []byte
+	LaterAfter time.Duration
 }
 
 func (g *GarbageClient) OnData(c *sim.Conn, b []byte) { g.Got = append(g.Got, b...) }
@@ -31,6 +35,16 @@ func (g *GarbageClient) Start(connect func(p sim.Peer) *sim.Conn) {
 	}
 	g.S.Logf("garbage client %s (%s) sends %dB fin=%v", g.Name, g.Kind, len(g.Payload), g.FinAfter)
 	g.Conn.Send(g.Payload)
+	if len(g.Later) > 0 {
+		c := g.Conn
+		g.S.After(g.LaterAfter, "garbage:later:"+g.Name, func() {
+			if !c.PeerDone() && !g.SawClose {
+				g.S.Logf("garbage client %s sends %dB more", g.Name, len(g.Later))
+				c.Send(g.Later)
+			}
+		})
+		return
+	}
 	if g.FinAfter {
 		g.Conn.PeerClose()
 	}
